@@ -55,7 +55,11 @@ def graph(ctx):
         if i == 0:
             first_identified = identified
         # a second relation may carry the SAME identifier as the first one (two relation kinds under one identifier)
-        add_record(d, k, "ex:r0" if identified else None, args, [("ex:w", i)] if identified else None)
+        # the relation's identifier may coincide with the name of a declared element or of an undeclared endpoint
+        rid = "ex:r0"
+        if identified and P["nrel"] == 1:
+            rid = ("ex:r0", "ex:e1", "ex:u1")[ctx.choose("relation_id", 3)]
+        add_record(d, k, rid if identified else None, args, [("ex:w", i)] if identified else None)
     if relations_first:
         elements()
     ctx.pin_all("names reach networkx (hashing)")
@@ -140,7 +144,7 @@ OBLIGATIONS = [
                     "the relation; graph_to_prov(g) = unified elements + those relations (strict multiset). Declared/undeclared endpoints, self loops, parallel relations, one-ended "
                     "relations, repeated identifiers, two element kinds under one identifier",
                bounds="3-5 elements, 0-2 relations: each of the 15 relation kinds alone and 40 (quick) / all 120 (thorough) unordered kind pairs; endpoints from 5 names (2 undeclared), every combination; "
-                      "relations before / after the element declarations; two relations under one identifier",
+                      "relations before / after the element declarations; two relations under one identifier; a single relation identified by a fresh name, by the name of a declared element or by the name of an undeclared endpoint",
                assumptions=["influence relations with an undeclared endpoint are skipped (documented by the converter)", "bundle-free documents",
                             "names are concrete (chosen by the solver from a catalogue): networkx hashes its nodes"],
                functions=["prov.graph.prov_to_graph/graph_to_prov/INFERRED_ELEMENT_CLASS", "prov.model.ProvDocument.unified", "prov.model.ProvRecord.__hash__/__eq__"],
